@@ -254,10 +254,21 @@ def r8_deleter(prog, run):
             if arg is None:
                 seen[t] = (f, 'the shared record is not constructed in the initialiser')
                 continue
+            src = f
+            if arg['k'] == 'call' and not arg.get('op') and not arg.get('obj'):
+                # the deleter is chosen by a (static) helper of the promise: look at what this instantiation of the helper returns
+                hs_ = [h for h in pr.callee_fns(f, arg) if h.entry is not None]
+                if len(hs_) == 1:
+                    rets = [h2 for h2 in [hs_[0].nodes[hs_[0].skip(r['e'])] for _, r in hs_[0].returns() if 'e' in r]]
+                    if rets and all(r['k'] == 'null' for r in rets):
+                        arg = {'k': 'null'}
+                    elif rets and not any(r['k'] == 'null' for r in rets):
+                        src = hs_[0]
+                        arg = {'k': 'from-helper'}
             if arg['k'] == 'null':
                 seen[t] = (f, None if t == 'void' else 'no deleter (nullptr)')
                 continue
-            lams = [l for n in f.nodes if n['k'] == 'lambda' for l in pr.lambda_fns(f, n)]
+            lams = [l for n in src.nodes if n['k'] == 'lambda' for l in pr.lambda_fns(src, n)]
             deletes = [(l, m) for l in lams for m in l.nodes if m['k'] == 'delete']
             good = False
             for l, m in deletes:
